@@ -289,3 +289,19 @@ Proof.
     destruct (N.eqb_spec (ev_id x) (ev_id e)) as [Heq|]; [|reflexivity]. apply Hrest; [now left|exact Heq]. }
   rewrite Hn, N.eqb_refl, Hr. reflexivity.
 Qed.
+
+(* ------------------------------------------------------------ AddEnr and the node's own announcements *)
+Lemma add_enr_keeps_report c id : process_add_enr c id false = c.
+Proof. reflexivity. Qed.
+Lemma add_enr_get c id added id' :
+  cache_get (process_add_enr c id added) id' = if added && (id =? id') then Some (RGood max_distance) else cache_get c id'.
+Proof. unfold process_add_enr. destruct added; cbn [andb]; [apply cache_get_set|reflexivity]. Qed.
+
+Lemma pong_announces_current_radius sup t d r t' r' : pong_of_ping sup t d r = (t', Some r') -> r' = r /\ t' = t.
+Proof.
+  unfold pong_of_ping. destruct (negb (existsb (N.eqb t) sup)); [discriminate|].
+  destruct (carries_radius t); [|discriminate]. destruct d; [|discriminate]. intros H; inversion H; auto.
+Qed.
+Lemma pong_for_radius_type sup t r :
+  existsb (N.eqb t) sup = true -> carries_radius t = true -> pong_of_ping sup t true r = (t, Some r).
+Proof. intros H1 H2. unfold pong_of_ping. rewrite H1, H2. reflexivity. Qed.
